@@ -468,6 +468,25 @@ def wl_totality(ctx, rng, i):
         return
     r = lib_eq(ctx, at, bt, [a, b], "random pair")
     lib_eq(ctx, at, at, [a], "reflexive (full grammar)")
+    # the same under the 2.0 grammar, for the sub-language both grammars share
+    from .c10 import shared_sublanguage
+    if shared_sublanguage(a) and shared_sublanguage(b) and validate_text(at, "2.0") == [] and validate_text(bt, "2.0") == []:
+        from stix2.equivalence.pattern import equivalent_patterns
+        ctx.ev()
+        ctx.count("v20_pairs")
+        try:
+            with warnings.catch_warnings():
+                warnings.simplefilter("ignore")
+                r20 = bool(equivalent_patterns(at, bt, stix_version="2.0"))
+                refl = bool(equivalent_patterns(at, at, stix_version="2.0"))
+            if not refl:
+                ctx.violation("not-reflexive", "a pattern is not equivalent to itself under stix_version=2.0", {"pattern": at})
+            if r is not None and r20 != r:
+                ctx.violation("version-dependent-answer", "equivalent_patterns answers %s under 2.1 and %s under 2.0 for patterns both grammars accept" % (r, r20),
+                              {"pattern1": at, "pattern2": bt})
+        except Exception as e:
+            ctx.violation("raised:%s@%s" % (type(e).__name__, where_raised(e)), "equivalent_patterns(stix_version='2.0') raised %s" % type(e).__name__,
+                          {"pattern1": at, "pattern2": bt, "exception": repr(e)[:300]})
     ctx.count("totality_pairs")
     if r:
         ctx.count("random_pair_true")
